@@ -94,8 +94,10 @@ theorem bv_new_words (len : Nat) :
   · unfold BV.new BV.withValue
     simp only [Bool.false_eq_true, if_false]
     split <;> simp
-  · apply WordsOK_of_getD
-    intro i; rw [hget]; exact Nat.two_pow_pos 64
+  · intro i hi
+    have := hget i
+    rw [getD_of_lt _ _ hi] at this
+    rw [this]; exact Nat.two_pow_pos 64
   · intro k; unfold bitAt; rw [hget]; simp
 
 theorem efGood_new (n u : Nat) (x : Nat → Nat) (hu : u < 2 ^ 64) :
